@@ -1,15 +1,81 @@
 """C20 — global-encoding flags are independent booleans.
-Model: Gen/GenGlobalEncoding.v (translated from header.GlobalEncoding on every run).
-Correspondence: generated functions vs the real class, exhaustively over 65536 x 5 x 2, plus
-histories; the field through a written header. Search: the property itself on the real class."""
+Model: Gen/GenGlobalEncoding.v (translated from header.GlobalEncoding on every run) + Model/GlobalEncPy.v (the objects a caller
+assigns to a flag: Python bool/int, GpsTimeType, numpy bool_/int8..uint64 scalars, 0-d arrays; seen through bool()/int() only).
+Correspondence: generated functions vs the real class, exhaustively over 65536 x 5 x 2, every representation of the assigned
+object on boundary values, histories; the field through a written header. Search: the property itself on the real class —
+after EVERY assignment the flag reads back, no other bit moved, the field is still a plain int and serialises to its two bytes."""
 import io
 
 from harness import common
 
+DRIVER = "c20"
 FLAGS = ["gps_time_type", "waveform_data_packets_internal", "waveform_data_packets_external",
          "synthetic_return_numbers", "wkt"]
 MASKS = [1, 2, 4, 8, 16]
-ASSUMPTIONS = ["GlobalEncoding setters are called with bool/0/1 values (GpsTimeType members are 0/1)"]
+ASSUMPTIONS = ["the object assigned to a flag is a Python bool/int, a GpsTimeType member, a numpy bool_/integer scalar or a 0-d array of "
+               "those (looked at through bool()/int()); a GPS time type is 0 or 1; GlobalEncoding.value itself is assigned Python ints only"]
+
+# ---- the objects assigned to a flag: (kind token of the model driver, integer held) -> Python object
+SCALAR_KINDS = ["b", "i", "g", "nb", "s1", "s2", "s4", "s8", "u1", "u2", "u4", "u8"]
+KINDS = SCALAR_KINDS + ["a" + k for k in SCALAR_KINDS if k != "g"]
+
+
+def kind_range(kind):
+    k = kind[1:] if kind[0] == "a" else kind
+    if k in ("b", "nb", "g"):
+        return 0, 1
+    if k == "i":
+        return -(1 << 70), 1 << 70
+    n = 8 * int(k[1:])
+    return (-(1 << (n - 1)), (1 << (n - 1)) - 1) if k[0] == "s" else (0, (1 << n) - 1)
+
+
+def make_value(kind, z):
+    """the Python object of that kind holding the integer z"""
+    import numpy as np
+    from laspy.header import GpsTimeType
+    if kind[0] == "a":
+        return np.array(make_value(kind[1:], z))
+    if kind == "b":
+        return bool(z)
+    if kind == "i":
+        return int(z)
+    if kind == "g":
+        return GpsTimeType(z)
+    if kind == "nb":
+        return np.bool_(z)
+    return {"s1": np.int8, "s2": np.int16, "s4": np.int32, "s8": np.int64, "u1": np.uint8, "u2": np.uint16, "u4": np.uint32, "u8": np.uint64}[kind](z)
+
+
+def kind_values(kind, legal_gps_only):
+    """boundary integers of the kind: 0, 1, the extremes, values whose low bits are all zero (truthy all the same)"""
+    lo, hi = kind_range(kind)
+    cand = [0, 1] if legal_gps_only else [0, 1, 2, 3, -1, 16, 255, 256, 1 << 16, 1 << 32, lo, hi, hi - 1, lo + 1]
+    return sorted({z for z in cand if lo <= z <= hi})
+
+
+def describe(kind, z):
+    return repr(make_value(kind, z)) + (" (0-d array)" if kind[0] == "a" else "")
+
+
+def pyval_cases(ctx, base_values):
+    """(value, flag, kind, z, legal target?) over every kind x boundary integers x flags x base values"""
+    out = []
+    for i in range(5):
+        for kind in KINDS:
+            if kind == "g" and i != 0:
+                continue
+            for z in kind_values(kind, False):
+                legal = (i != 0) or z in (0, 1)
+                if kind == "g" and not legal:
+                    continue
+                for v in base_values:
+                    out.append((v, i, kind, z, legal))
+    return out
+
+
+def base_values(ctx):
+    return sorted(set([0, 0xFFFF, 0x1F, 0xFFE0, 0x8000, 0x0010, 0xFFEF] + [ctx.rng.randrange(65536) for _ in range(ctx.n(6, 60))]))
 
 
 def impl_set(v, i, b):
@@ -26,7 +92,9 @@ def impl_get(v, i):
 
 def correspond(ctx):
     ctx.extra["rule"] = ("exhaustive: every 16-bit value x 5 flags x {True,False} through GlobalEncoding setters/getters vs "
-                         "the generated Gallina functions (extracted); random assignment histories; the field through "
+                         "the generated Gallina functions (extracted); every representation of the assigned object (Python bool/int, GpsTimeType, "
+                         "numpy bool_/int8..uint64, 0-d arrays) x boundary integers (0, 1, extremes, truthy values with zero low bits) x flags x "
+                         "field values vs ge_set_py, with the type of the resulting field; random assignment histories (bool and any-representation); the field through "
                          "LasHeader.write_to/read_from. non-trivial = the assignment changes the value or the flag was already "
                          "at the target (the toggle-vs-clear case); distinct by (value, flag, target)")
     dis = []
@@ -57,8 +125,27 @@ def correspond(ctx):
         if int(o) != r:
             dis.append({"kind": f"set {FLAGS[i]}={b} on {'set' if v & MASKS[i] else 'clear'} bit",
                         "input": [v, i, b], "model": int(o), "impl": r})
-    # histories
+    # every representation of the assigned object (also illegal GPS time types: the model keeps bit 0 of int(value))
     from laspy.header import GlobalEncoding
+    pc = pyval_cases(ctx, base_values(ctx))
+    outs = common.run_model([f"ge_setp {i} {v} {kind} {z}" for v, i, kind, z, _ in pc], name=DRIVER)
+    for (v, i, kind, z, legal), o in zip(pc, outs):
+        mv, mlegal, mtruth = o.split(" ")
+        ctx.traces += 1
+        ctx.case(("py", v, i, kind, z), nontrivial=True, sample={"value": v, "flag": FLAGS[i], "assigned": describe(kind, z), "model": o})
+        ctx.count("assigned:" + ("0-d array" if kind[0] == "a" else {"b": "bool", "i": "int", "g": "GpsTimeType", "nb": "numpy.bool_"}.get(kind, "numpy integer")))
+        try:
+            g = GlobalEncoding(v)
+            setattr(g, FLAGS[i], make_value(kind, z))
+            r, rt = g.value, type(g.value).__name__
+        except Exception as ex:
+            r, rt = "raises " + common.exc_kind(ex), "-"
+        if (mlegal == "T") != legal or (mtruth == "T") != (z != 0):
+            dis.append({"kind": "value domain", "input": [v, i, kind, z], "model": o, "impl": [legal, z != 0]})
+        if r != int(mv) or rt != "int":
+            dis.append({"kind": f"set {FLAGS[i]}={describe(kind, z)}", "input": {"value": v, "flag": FLAGS[i], "kind": kind, "int": z},
+                        "model": f"{mv} (a plain int)", "impl": f"{r} ({rt})"})
+    # histories
     nh = ctx.n(300, 5000)
     hist_cases = []
     for _ in range(nh):
@@ -75,7 +162,87 @@ def correspond(ctx):
         ctx.case(("h", v0, tuple(ops)), sample=None)
         if int(o) != g.value:
             dis.append({"kind": "history", "input": [v0, ops], "model": int(o), "impl": g.value})
+    # histories whose assigned objects range over every representation (legal targets)
+    hp = [py_history(ctx.rng) for _ in range(ctx.n(300, 5000))]
+    outs = common.run_model([f"ge_runp {v0} " + ",".join(f"{i}:{k}:{z}" for i, k, z in ops) for v0, ops in hp], name=DRIVER)
+    for (v0, ops), o in zip(hp, outs):
+        ctx.traces += 1
+        ctx.case(("hp", v0, tuple(ops)), sample=None)
+        try:
+            g = GlobalEncoding(v0)
+            for i, k, z in ops:
+                setattr(g, FLAGS[i], make_value(k, z))
+            r, rt = g.value, type(g.value).__name__
+        except Exception as ex:
+            r, rt = "raises " + common.exc_kind(ex), "-"
+        if r != int(o) or rt != "int":
+            dis.append({"kind": "history of assigned objects", "input": [v0, ops], "model": f"{o} (a plain int)", "impl": f"{r} ({rt})"})
     return dis
+
+
+def py_history(rng):
+    v0 = rng.choice([0, 0xFFFF, rng.randrange(65536)])
+    ops = []
+    for _ in range(rng.randrange(1, 12)):
+        i = rng.randrange(5)
+        k = rng.choice([k for k in KINDS if k != "g" or i == 0])
+        ops.append((i, k, rng.choice(kind_values(k, i == 0))))
+    return v0, ops
+
+
+def oracle_assigned(v, i, kind, z):
+    """The property on the implementation for one assignment of an object of any representation: the flag reads back the truth
+    value of the object, no other bit moves, and the field still is what a header can carry: a plain int that serialises to its
+    two little-endian bytes. Returns None if it holds, else a description."""
+    from laspy.header import GlobalEncoding
+    what = f"{FLAGS[i]} = {describe(kind, z)} on value {v:#06x}"
+    exp = (v | MASKS[i]) if z != 0 else (v & ~MASKS[i])
+    try:
+        g = GlobalEncoding(v)
+        setattr(g, FLAGS[i], make_value(kind, z))
+        back = getattr(g, FLAGS[i])
+        if bool(int(back)) != (z != 0):
+            return f"{what}: the flag reads back {back!r}"
+        if g.value != exp:
+            return f"{what}: the field became {int(g.value):#06x}, expected {exp:#06x}"
+        if type(g.value) is not int:
+            return f"{what}: the field became a {type(g.value).__module__}.{type(g.value).__name__} (no longer a plain int: a header carrying it cannot be written)"
+        if i and type(back) is not bool:
+            return f"{what}: the getter returns a {type(back).__name__}"
+        bio = io.BytesIO()
+        g.write_to(bio)
+        if bio.getvalue() != exp.to_bytes(2, "little"):
+            return f"{what}: the field serialises to {bio.getvalue().hex()}"
+    except Exception as ex:
+        return f"{what}: raises {ex!r}"
+    return None
+
+
+def oracle_assigned_header(rng, v, i, kind, z, version):
+    """the same through a header: assign on header.global_encoding, write the header, read it back; then through a file"""
+    import laspy
+    what = f"LAS {version}: header.global_encoding.{FLAGS[i]} = {describe(kind, z)} on value {v:#06x}"
+    exp = (v | MASKS[i]) if z != 0 else (v & ~MASKS[i])
+    try:
+        h = laspy.LasHeader(version=version, point_format=rng.choice([0, 1]))
+        h.global_encoding.value = v
+        setattr(h.global_encoding, FLAGS[i], make_value(kind, z))
+        bio = io.BytesIO()
+        h.write_to(bio)
+        if int.from_bytes(bio.getvalue()[6:8], "little") != exp:
+            return f"{what}: bytes 6..8 of the written header hold {int.from_bytes(bio.getvalue()[6:8], 'little'):#06x}, expected {exp:#06x}"
+        back = laspy.LasHeader.read_from(io.BytesIO(bio.getvalue()))
+        if back.global_encoding.value != exp or type(back.global_encoding.value) is not int:
+            return f"{what}: read back {back.global_encoding.value!r}"
+        las = laspy.LasData(h)
+        out = io.BytesIO()
+        las.write(out)
+        got = laspy.read(io.BytesIO(out.getvalue())).header.global_encoding.value
+        if got != exp:
+            return f"{what}: LasData.write / laspy.read give {got:#06x}, expected {exp:#06x}"
+    except Exception as ex:
+        return f"{what}: writing / reading the header raises {ex!r}"
+    return None
 
 
 def oracle_element(v, i, b):
@@ -133,6 +300,56 @@ def oracle_objects(rng):
     c = laspy.create(point_format=3)
     if c.header.global_encoding is a.global_encoding or c.header.global_encoding.value != 0:
         out.append(("fresh header starts non-zero", {"via": "laspy.create"}, f"field {c.header.global_encoding.value:#06x}"))
+    # every API object derived from a header owns its field: a deep copy, a writer's private copy, a converted / sub-set
+    # LasData, two readers of the same bytes. Assigning a flag (with any representation of the value) on one side never
+    # shows on the other, and the derived object starts with the source's value.
+    import copy
+    for v in (0x8011, 0x0000, 0xFFFF, rng.randrange(65536)):
+        i = rng.randrange(5)
+        k = rng.choice([k for k in KINDS if k != "g" or i == 0])
+        z = rng.choice([0, 1])
+        flip = (v & ~MASKS[i]) if v & MASKS[i] else (v | MASKS[i])
+        zf = 0 if v & MASKS[i] else 1
+        try:
+            src = laspy.LasHeader(version="1.4", point_format=6)
+            src.global_encoding.value = v
+            las = laspy.LasData(src)
+            las.points = laspy.ScaleAwarePointRecord.zeros(3, header=src)
+            bio = io.BytesIO()
+            w = laspy.open(bio, mode="w", header=src, closefd=False)
+            derived = [("copy.deepcopy(header)", copy.deepcopy(src)), ("laspy.convert(las, point_format_id=7).header", laspy.convert(las, point_format_id=7).header),
+                       ("laspy.convert(las).header", laspy.convert(las).header), ("las[index].header", las[np.array([0, 2])].header),
+                       ("the writer's header", w.header)]
+            for nm, d in derived:
+                if d.global_encoding.value != v:
+                    out.append(("derived header starts with another field", {"value": v, "derived": nm}, f"{nm} holds {d.global_encoding.value:#06x}, the source {v:#06x}"))
+                if d.global_encoding is src.global_encoding:
+                    out.append(("flags shared between headers", {"value": v, "derived": nm}, f"{nm} shares the GlobalEncoding object of its source"))
+            # the source is modified after the derived objects exist: they keep their value
+            setattr(src.global_encoding, FLAGS[i], make_value(k if k != "g" else "i", zf))
+            for nm, d in derived:
+                if d.global_encoding.value != v:
+                    out.append(("flags shared between headers", {"value": v, "derived": nm, "flag": FLAGS[i]},
+                                f"{nm} changed to {d.global_encoding.value:#06x} when {FLAGS[i]} of its source was assigned"))
+            w.write_points(las.points)
+            w.close()
+            if int.from_bytes(bio.getvalue()[6:8], "little") != v:
+                out.append(("flags shared between headers", {"value": v, "derived": "file written by laspy.open(mode='w')", "flag": FLAGS[i]},
+                            f"the caller's header was modified after the writer was opened; the file holds {int.from_bytes(bio.getvalue()[6:8], 'little'):#06x}, the writer was given {v:#06x}"))
+            r1 = laspy.open(io.BytesIO(bio.getvalue()))
+            r2 = laspy.open(io.BytesIO(bio.getvalue()))
+            setattr(r1.header.global_encoding, FLAGS[i], make_value(k if k != "g" else "i", zf))
+            if r2.header.global_encoding.value != v or r1.header.global_encoding.value != flip:
+                out.append(("flags shared between headers", {"value": v, "derived": "two readers of the same bytes", "flag": FLAGS[i]},
+                            f"reader 1 holds {r1.header.global_encoding.value:#06x} (expected {flip:#06x}), reader 2 {r2.header.global_encoding.value:#06x} (expected {v:#06x})"))
+            # assignment on a derived header leaves the (already modified) source alone
+            for nm, d in derived[:4]:
+                setattr(d.global_encoding, FLAGS[(i + 1) % 5], make_value("nb", 0 if v & MASKS[(i + 1) % 5] else 1))
+            if src.global_encoding.value != flip:
+                out.append(("flags shared between headers", {"value": v, "flag": FLAGS[(i + 1) % 5]},
+                            f"the source header changed to {src.global_encoding.value:#06x} when flags of headers derived from it were assigned (expected {flip:#06x})"))
+        except Exception as ex:
+            out.append(("derived header raises", {"value": v, "flag": FLAGS[i], "assigned_kind": k}, repr(ex)))
     # through LasData operations, with a WKT record present (a tempting place to 'repair' the WKT flag)
     for ver, fmt in (("1.4", 6), ("1.4", 3), ("1.2", 1)):
         for v in (0x0000, 0x0001, 0x0010, 0xFFEF, 0x8000, rng.randrange(65536) & ~0x10):
@@ -160,7 +377,8 @@ def oracle_objects(rng):
                 exp = (v0 | MASKS[i]) if bval else (v0 & ~MASKS[i])
                 h = laspy.LasHeader(version=ver, point_format=fmt)
                 h.global_encoding.value = v0
-                setattr(h.global_encoding, FLAGS[i], bval)
+                rep = rng.choice([k for k in KINDS if k != "g" or i == 0])      # any representation of the assigned value
+                setattr(h.global_encoding, FLAGS[i], make_value(rep, int(bval)))
                 bio = io.BytesIO()
                 with laspy.open(bio, mode="w", header=h, closefd=False) as w:
                     w.write_points(laspy.ScaleAwarePointRecord.zeros(2, header=h))
@@ -178,7 +396,7 @@ def oracle_objects(rng):
                 with laspy.open(bio, mode="a", closefd=False) as ap:
                     if ap.header.global_encoding.value != v0:
                         out.append(("appender header", {"version": ver, "value": v0}, f"the appender's header holds {ap.header.global_encoding.value:#06x}"))
-                    setattr(ap.header.global_encoding, FLAGS[i], bval)
+                    setattr(ap.header.global_encoding, FLAGS[i], make_value(rep, int(bval)))
                     if rng.random() < 0.5:
                         ap.append_points(laspy.ScaleAwarePointRecord.zeros(1, header=ap.header))
                 got = laspy.read(io.BytesIO(bio.getvalue())).header.global_encoding.value
@@ -186,7 +404,7 @@ def oracle_objects(rng):
                     out.append(("field lost through the appender's header rewrite", {"version": ver, "format": fmt, "file_value": v0, "flag": FLAGS[i], "target": bval},
                                 f"{FLAGS[i]}={bval} assigned on the appender's header ({v0:#06x} -> {exp:#06x}); the file read back holds {got:#06x}"))
             except Exception as ex:
-                out.append(("writing a header raises", {"version": ver, "format": fmt, "value": v0, "flag": FLAGS[i], "target": bval}, repr(ex)))
+                out.append(("writing a header raises", {"version": ver, "format": fmt, "value": v0, "flag": FLAGS[i], "target": bval, "assigned_as": rep}, repr(ex)))
     return out
 
 
@@ -207,6 +425,49 @@ def search(ctx, seeds):
                         seen.add(kind)
                         failing.append({"kind": kind, "input": {"value": v, "flag": FLAGS[i], "target": b}, "observed": why,
                                         "replay": f"g = laspy.header.GlobalEncoding({v}); g.{FLAGS[i]} = {b}; g.value"})
+    # every representation of the assigned object, legal targets only (a GPS time type is 0 or 1)
+    bv = base_values(ctx)
+    for v, i, kind, z, legal in pyval_cases(ctx, bv):
+        if not legal:
+            continue
+        ctx.case(("oracle-py", v, i, kind, z), sample=None)
+        why = oracle_assigned(v, i, kind, z)
+        if not why and v in (bv[0], bv[-1], bv[len(bv) // 2]):
+            why = oracle_assigned_header(ctx.rng, v, i, kind, z, ctx.rng.choice(["1.1", "1.2", "1.3", "1.4"]))
+        if why:
+            kind_ = f"assigned object: {FLAGS[i]} = {type(make_value(kind, z)).__name__}{' 0-d array' if kind[0] == 'a' else ''} {'truthy' if z else 'falsy'}"
+            if kind_ not in seen and sum(1 for f in failing if f["kind"].startswith("assigned object")) < 3:
+                seen.add(kind_)
+                failing.append({"kind": kind_, "input": {"value": v, "flag": FLAGS[i], "assigned_kind": kind, "assigned_int": z}, "observed": why,
+                                "replay": f"g = laspy.header.GlobalEncoding({v}); g.{FLAGS[i]} = {describe(kind, z)}; type(g.value), g.value; g.write_to(io.BytesIO())"})
+    # histories over every representation: the oracle after EVERY assignment, then the header is written
+    from laspy.header import GlobalEncoding
+    import laspy
+    for _ in range(ctx.n(200, 3000)):
+        v0, ops = py_history(ctx.rng)
+        ctx.case(("oracle-hp", v0, tuple(ops)), sample=None)
+        why = None
+        try:
+            h = laspy.LasHeader(version=ctx.rng.choice(["1.1", "1.2", "1.3", "1.4"]), point_format=0)
+            h.global_encoding.value = v0
+            exp = v0
+            for step, (i, k, z) in enumerate(ops):
+                setattr(h.global_encoding, FLAGS[i], make_value(k, z))
+                exp = (exp | MASKS[i]) if z else (exp & ~MASKS[i])
+                if h.global_encoding.value != exp or type(h.global_encoding.value) is not int:
+                    why = f"after step {step} ({FLAGS[i]} = {describe(k, z)}) the field is {h.global_encoding.value!r} ({type(h.global_encoding.value).__name__}), expected {exp:#06x} (int)"
+                    break
+            if why is None:
+                bio = io.BytesIO()
+                h.write_to(bio)
+                got = laspy.LasHeader.read_from(io.BytesIO(bio.getvalue())).global_encoding.value
+                if got != exp:
+                    why = f"the header written after the history reads back {got:#06x}, expected {exp:#06x}"
+        except Exception as ex:
+            why = f"raises {ex!r}"
+        if why and "history of assigned objects" not in seen:
+            seen.add("history of assigned objects")
+            failing.append({"kind": "history of assigned objects", "input": {"value": v0, "ops": [[FLAGS[i], k, z] for i, k, z in ops]}, "observed": why})
     vals = list(range(65536)) if ctx.thorough() else sorted(set([0, 1, 0xFFFF, 0x8000, 0xFFE0, 0x1F] + [ctx.rng.randrange(65536) for _ in range(1500)]))
     for v in vals:
         ctx.case(("hdr", v), sample=None)
@@ -222,7 +483,9 @@ def search(ctx, seeds):
 def replay(ctx, data):
     fi = data.get("failing_input", {})
     inp = fi.get("input", {})
-    if "flag" in inp:
+    if "assigned_kind" in inp:
+        why = oracle_assigned(inp["value"], FLAGS.index(inp["flag"]), inp["assigned_kind"], inp["assigned_int"])
+    elif "flag" in inp:
         why = oracle_element(inp["value"], FLAGS.index(inp["flag"]), inp["target"])
     elif "value" in inp:
         why = oracle_header_field(inp["value"], inp.get("version", "1.4"))
